@@ -88,6 +88,25 @@ def _near_twin(man, arch_key, img):
     return None
 
 
+ALIGNED = {"nl_aligned": "\n", "unicode_aligned": "\u00e9\uff11"}
+
+
+def _rename_aligned(node, new_id):
+    """Give a filed composeinfo variant another id, keeping its UID, its key in the parent's table and all UIDs below aligned."""
+    table = node.parent.variants if node.parent is not None else node._metadata.variants.variants
+    key = [k for k, v in table.items() if v is node][0]
+    del table[key]
+    node.id = new_id
+    node.uid = new_id if node.parent is None else "%s-%s" % (node.parent.uid, new_id)
+    table[new_id if node.parent is not None or "-" not in key else key] = node
+
+    def below(v):
+        for c in v.variants.values():
+            c.uid = "%s-%s" % (v.uid, c.id)
+            below(c)
+    below(node)
+
+
 def _top(v):
     while v.parent is not None:
         v = v.parent
@@ -148,8 +167,8 @@ def corrupt_object(fmt, obj, node_index, field, cls):
         setattr(node, field, getattr(node, field) + "\n")
     elif cls == "fullwidth":
         setattr(node, field, getattr(node, field).translate(FULLWIDTH))
-    elif cls == "nl_aligned":
-        node.id, node.uid = node.id + "\n", node.uid + "\n"
+    elif cls in ALIGNED:
+        _rename_aligned(node, node.id + ALIGNED[cls])
     elif field == "image_paths" and cls == "int":
         plat = sorted(node.images)[0]
         node.images[plat][sorted(node.images[plat])[0]] = 5
@@ -295,12 +314,16 @@ def corrupt_document(fmt, text, obj, case):
             n[field] = n[field] + "\n"
         elif cls == "fullwidth":
             n[field] = n[field].translate(FULLWIDTH)
-        elif cls == "nl_aligned":
-            n["id"], n["uid"] = n["id"] + "\n", n["uid"] + "\n"
+        elif cls in ALIGNED:
+            if n.get("variants") or "-" in n["id"] or n["uid"].replace("-", "") == n["id"] != n["uid"]:
+                return None          # only childless variants with an undashed UID are renamed in a document
+            sfx = ALIGNED[cls]
+            old_id = n["id"]
+            n["id"], n["uid"] = n["id"] + sfx, n["uid"] + sfx
             for par in pay["variants"].values():              # keep the parent's child list and the table key aligned, too
-                if label.rsplit("-", 1)[-1] in par.get("variants", []) and label.startswith(par["uid"] + "-"):
-                    par["variants"] = [c + "\n" if c == label.rsplit("-", 1)[-1] else c for c in par["variants"]]
-            pay["variants"][label + "\n"] = pay["variants"].pop(label)
+                if old_id in par.get("variants", []) and label == par["uid"] + "-" + old_id:
+                    par["variants"] = [c + sfx if c == old_id else c for c in par["variants"]]
+            pay["variants"][label + sfx] = pay["variants"].pop(label)
         elif cls == "misaligned":
             n["uid"] = n["uid"] + "x"
         elif cls == "dashvariant":
